@@ -291,6 +291,56 @@ pub fn run(ctx: &Ctx) -> PropResult {
         judge_setter(rec, start, u32::MAX, false, 0);
         judge_setter(rec, start, 1 << 31, on_dt, 0);
     }));
+    if full {
+        // EXHAUSTIVE: every representable year x day-of-year 0..=367 on Date (4.3e9 setter calls).
+        let y0: i64 = -5_879_611;
+        let ny: u64 = 2 * 5_879_611 + 1;
+        wls.push(Workload::chunks("set_day_of_year_ALL_years_x_doy", ny, 256, move |rec, r| {
+            let mut n_ok = 0u64;
+            let mut n_refused = 0u64;
+            for k in r.clone() {
+                let y = y0 + k as i64;
+                if y == 0 {
+                    continue;
+                }
+                let a = cal::astro_year(y);
+                // a representable day inside the year
+                let jan1 = cal::days_from_civil(a, 1, 1);
+                let start = jan1.max(cal::MIN_DAY).min(cal::MAX_DAY);
+                if cal::civil_from_days(start).0 != a {
+                    continue;
+                }
+                let d = match trap(|| Date::from_timestamp(ts_of_day(start))) {
+                    Ok(d) => d,
+                    Err(_) => continue,
+                };
+                for doy in 0..=367u32 {
+                    let target = cal::day_from_year_doy(a, doy).filter(|t| (cal::MIN_DAY..=cal::MAX_DAY).contains(t));
+                    let got = trap(|| d.set_day_of_year(doy).map(|x| x.timestamp()));
+                    let fine = match (&got, target) {
+                        (Ok(Ok(ts)), Some(t)) => *ts == ts_of_day(t),
+                        (Ok(Err(AstrolabeError::OutOfRange(_))), None) => true,
+                        _ => false,
+                    };
+                    if fine {
+                        if target.is_some() {
+                            n_ok += 1;
+                        } else {
+                            n_refused += 1;
+                        }
+                    } else {
+                        rec.cur_idx = k;
+                        judge_setter(rec, start, doy, false, 0);
+                    }
+                }
+            }
+            rec.evals(n_ok + n_refused);
+            rec.api_n("Date::set_day_of_year", n_ok + n_refused);
+            rec.nontrivial_counted(n_ok + n_refused);
+            *rec.bins.entry("exhaustive-setdoy/landed").or_insert(0) += n_ok;
+            *rec.bins.entry("exhaustive-setdoy/refused").or_insert(0) += n_refused;
+        }));
+    }
     let out = run_workloads(ctx, wls);
     let mut meta = PropMeta::default();
     meta.exhaustive = full;
@@ -306,6 +356,11 @@ pub fn run(ctx: &Ctx) -> PropResult {
         "fmt:yearstart/BC/week53", "fmt:yearend/AD/week53", "fmt:yearend/BC/week1",
         "setdoy/in-year", "setdoy/zero", "setdoy/366-in-common-year", "setdoy/366-in-leap-year", "setdoy/beyond-year", "setdoy/beyond-range-end",
     ];
+    if full {
+        meta.required_bins.push("exhaustive-setdoy/landed");
+        meta.required_bins.push("exhaustive-setdoy/refused");
+        meta.rule.push_str(" Thorough additionally: set_day_of_year for ALL representable years x day-of-year 0..=367 on Date (exhaustive over the setter's quantifier).");
+    }
     meta.assumptions = vec!["calendar model as in C01; ISO week = week containing the Thursday, computed on astronomical years".into()];
     Ok((meta, out))
 }
